@@ -1,7 +1,8 @@
-(* Spec.v — independent, readable specifications and the executable property oracles.
-   An oracle is the statement of a property's theorem as a boolean function of what an
-   implementation (or the model) produced; props/Cnn.v proves it returns true on the model's output,
-   the correspondence check runs it on the Rust library's output. *)
+(* Spec.v — independent, readable specifications (DSP0236/DSP0237 layouts as the property statements give
+   them) and the executable property oracles.
+   An oracle is the statement of a property's theorem as a boolean function of what an implementation
+   (or the model) produced; props/Cnn.v proves it true of the model's output for every input, the
+   correspondence check runs it on the Rust library's output. *)
 Require Import Base Crc Bitfield Headers Encode Decode Process Ops.
 Open Scope N_scope.
 
@@ -9,12 +10,128 @@ Open Scope N_scope.
 Record config := { g_addr : N; g_msg_types : list N; g_vendor_ids : list vendor_id }.
 Definition ctx_of (g : config) : ctx := ctx_new (g_addr g) (g_msg_types g) (g_vendor_ids g).
 
-(* per-step judgement: does the property's statement hold of this observation; which known-finding
-   class (0 = none) the step's input belongs to *)
+(* per-step judgement: does the statement hold of this observation (s_o); the known-finding class of the
+   step's input (0 = none); whether the step gave the oracle anything to decide; a coverage tag *)
 Record sv := { s_o : bool; s_kf : N; s_nontrivial : bool; s_tag : N }.
 Definition sv_triv : sv := {| s_o := true; s_kf := 0; s_nontrivial := false; s_tag := 0 |}.
+Definition sv_of (o : bool) (tag : N) : sv := {| s_o := o; s_kf := 0; s_nontrivial := true; s_tag := tag |}.
+Definition sv_kf (o : bool) (kf tag : N) : sv := {| s_o := o; s_kf := kf; s_nontrivial := true; s_tag := tag |}.
 
-(* ---------------------------------------------------------------- C03 *)
+(* what an oracle remembers from earlier steps of the case *)
+Record ost := {
+  os_eids : N * N;                                  (* both get_eid() values after the previous step *)
+  os_last_enc : option (op * nat * list N);         (* last successful encode: the call, n, buffer afterwards *)
+  os_last_dec : option (list N * obs);              (* last decode_packet call: input and observation *)
+  os_uuid : list N;                                 (* the UUID most recently installed (zeros before any) *)
+  os_spec_eid : N                                   (* C13's abstract machine: the last assigned EID *)
+}.
+
+(* ================================================================ packets, as the standards lay them out *)
+Definition last_byte (p : list N) : N := nth (length p - 1) p 0.
+Definition all_but_last (p : list N) : list N := firstn (length p - 1) p.
+Definition sub (p : list N) (off len : nat) : list N := firstn len (skipn off p).
+
+(* DSP0237 framing + DSP0236 transport header + message type byte + body + PEC *)
+Definition spec_prefix (src dst mt : N) (body : list N) : list N :=
+  [ (dst mod 128) * 2;                 (* destination slave address, R/W# = 0 *)
+    15;                                (* command code: MCTP over SMBus *)
+    N.of_nat (length body + 6);        (* byte count: everything after this byte up to, excluding, the PEC *)
+    (src mod 128) * 2 + 1;             (* source slave address, bit 0 = 1 *)
+    1;                                 (* reserved 0000, header version 0001 *)
+    dst;                               (* destination endpoint ID *)
+    src;                               (* source endpoint ID *)
+    200;                               (* SOM 1, EOM 1, packet sequence 00, tag owner 1, message tag 000 *)
+    mt ] ++ body.                      (* IC 0 + 7-bit message type, then the message body *)
+Definition spec_packet (src dst mt : N) (body : list N) : list N :=
+  let pre := spec_prefix src dst mt body in pre ++ [pec pre].
+
+(* ---------------- what each encoder is asked to encode ---------------- *)
+Definition arg (a : list N) (i : nat) : N := nth i a 0.
+Definition larg (ls : list (list N)) (i : nat) : list N := nth i ls [].
+
+(* destination named by the caller *)
+Definition enc_dest (request_half : bool) (id : N) (a : list N) : N :=
+  if (30 <=? id) || request_half then arg a 0 else arg a 1.
+
+(* DSP0236 control requests: Some (command code, parameters) or None when the API documents the arguments
+   as invalid.  id numbers the request encoders as in Ops.encode_call. *)
+Definition spec_request (id : N) (a : list N) (ls : list (list N)) : option (N * list N) :=
+  match id with
+  | 1 => if (arg a 2 =? 0) || (arg a 2 =? 255) then None
+         else Some (1, [arg a 1; arg a 2])                       (* Set Endpoint ID: operation, EID *)
+  | 2 => Some (2, [])                                            (* Get Endpoint ID *)
+  | 3 => Some (3, [])                                            (* Get Endpoint UUID *)
+  | 4 => Some (4, [arg a 1])                                     (* Get MCTP Version Support: type number *)
+  | 5 => Some (5, [])                                            (* Get Message Type Support *)
+  | 6 => Some (6, [arg a 1])                                     (* Get Vendor Defined Message Support: selector *)
+  | 7 => Some (7, [arg a 1])                                     (* Resolve Endpoint ID: target EID *)
+  | 8 => Some (8, [arg a 1; arg a 2; arg a 3])                   (* Allocate Endpoint IDs: op, pool size, first EID *)
+  | 9 => if (8 <=? length ls)%nat then None
+         else Some (9, N.of_nat (length ls) :: concat ls)        (* Routing Information Update: count, entries *)
+  | 10 => Some (10, [arg a 1])                                   (* Get Routing Table Entries: entry handle *)
+  | 11 => Some (11, [])                                          (* Prepare for Endpoint Discovery *)
+  | 12 => Some (12, [])                                          (* Endpoint Discovery *)
+  | 13 => Some (13, [])                                          (* Discovery Notify *)
+  | 14 => Some (14, [])                                          (* Get Network ID *)
+  | 15 => Some (15, [arg a 1; arg a 2])                          (* Query Hop: target EID, message type *)
+  | 16 => Some (16, larg ls 0 ++ [arg a 1])                      (* Resolve UUID: UUID, entry handle *)
+  | 17 => Some (17, [])                                          (* Query rate limit *)
+  | _ => None
+  end.
+
+(* DSP0236 control responses: (command code, completion code, fields after it for Success) or None for
+   documented-invalid arguments.  eid is the endpoint's current EID. *)
+Definition spec_response (id : N) (a : list N) (ls : list (list N)) (eid : N) : option (N * N * list N) :=
+  let cc := arg a 0 in
+  match id with
+  | 1 => Some (1, cc, [arg a 2 * 16 + arg a 3; eid; 0])          (* assignment status[5:4] | allocation[1:0]; EID; pool 0 *)
+  | 2 => Some (2, cc, [eid; arg a 2 * 16 + arg a 3; N.b2n (negb (arg a 4 =? 0))])  (* EID; type[5:4] | id type[1:0]; fairness *)
+  | 3 => Some (3, cc, larg ls 0)                                  (* UUID *)
+  | 4 => Some (4, cc, [1; 241; 243; 241; 0])                      (* one entry: 1.3.1 *)
+  | 5 => if (30 <? length (larg ls 0))%nat then None
+         else Some (5, cc, N.of_nat (length (larg ls 0)) :: larg ls 0)   (* count, types *)
+  | 6 => Some (6, cc, arg a 2 :: larg ls 0)                       (* next selector, vendor ID field *)
+  | _ => None
+  end.
+
+(* the whole message an encoder call stands for: Some (message type, body after the type byte) *)
+Definition spec_message (request_half : bool) (id : N) (a : list N) (ls : list (list N)) (eid : N)
+  : option (N * list N) :=
+  let hdr := if arg a 1 =? 0 then [] else larg ls 0 in
+  match id with
+  | 30 => Some (0, hdr ++ larg ls 1)
+  | 31 => Some (126, hdr ++ larg ls 1)
+  | 32 => Some (arg a 2 mod 128, hdr ++ larg ls 1)
+  | 33 => Some (127, hdr ++ larg ls 1)
+  | _ =>
+    if request_half then
+      if id =? 20 then
+        let d := arg a 2 in
+        if arg a 1 =? 0 then Some (126, [(d / 256) mod 256; d mod 256] ++ larg ls 0)
+        else if arg a 1 =? 1 then
+          Some (127, [(d / 16777216) mod 256; (d / 65536) mod 256; (d / 256) mod 256; d mod 256] ++ larg ls 0)
+        else None
+      else
+        match spec_request id a ls with
+        | Some (code, params) => Some (0, [128; code] ++ params)           (* Rq 1, D 0, rsvd 0, instance 0 *)
+        | None => None
+        end
+    else
+      match spec_response id a ls eid with
+      | Some (code, cc, fields) => Some (0, [0; code; cc] ++ fields)       (* Rq 0, D 0, rsvd 0, instance 0 *)
+      | None => None
+      end
+  end.
+
+(* is (half, id) one of the encoders at all *)
+Definition known_encoder (request_half : bool) (id : N) : bool :=
+  ((30 <=? id) && (id <=? 33)) ||
+  (if request_half then ((1 <=? id) && (id <=? 17)) || (id =? 20) else (1 <=? id) && (id <=? 6)).
+
+(* the SMBus frame limit: destination, command, count, 255 counted bytes, PEC *)
+Definition fits_frame (body : list N) : bool := (length body + 10 <=? 259)%nat.
+
+(* ================================================================ C03 *)
 (* "The last byte of every packet the library encodes is the SMBus PEC of all preceding bytes;
     equivalently the CRC-8 of the whole encoded packet is zero." *)
 Definition pec_ok (n : nat) (out : list N) : bool :=
@@ -23,7 +140,599 @@ Definition pec_ok (n : nat) (out : list N) : bool :=
 
 Definition c03_step (o : op) (x : obs) : sv :=
   match o, x with
-  | OEncode _ id _ _ _, XEnc (Some n) out =>
-      {| s_o := pec_ok n out; s_kf := 0; s_nontrivial := true; s_tag := id |}
+  | OEncode _ id _ _ _, XEnc (Some n) out => sv_of (pec_ok n out) id
   | _, _ => sv_triv
+  end.
+
+(* ================================================================ C04 *)
+(* framing bytes, byte count, reported length, length probe on every prefix, oversize refused *)
+Definition c04_step (g : config) (s : ost) (o : op) (x : obs) : sv :=
+  match o, x with
+  | OEncode h id a ls buf, XEnc (Some n) out =>
+      let dst := enc_dest h id a in
+      sv_of ((list_eqb (firstn 4 out) [(dst mod 128) * 2; 15; N.of_nat (n - 4); (g_addr g mod 128) * 2 + 1])
+             && (4 <=? n)%nat && (n <=? 259)%nat && (n <=? length out)%nat) id
+  | OEncode h id a ls buf, XEnc None out =>
+      (* a refusal is fine for C04; what matters is the oversize clause below *)
+      sv_triv
+  | OGetLength p, XLen r =>
+      match os_last_enc s with
+      | Some (_, n, out) =>
+          if (3 <=? length p)%nat && (length p <=? n)%nat && list_eqb p (firstn (length p) out)
+          then sv_of (match r with inl m => (m =? n)%nat | inr _ => false end) 100
+          else sv_triv
+      | None => sv_triv
+      end
+  | OGetLength p, _ =>
+      match os_last_enc s with
+      | Some (_, n, out) =>
+          if (3 <=? length p)%nat && (length p <=? n)%nat && list_eqb p (firstn (length p) out)
+          then sv_of false 100 else sv_triv
+      | None => sv_triv
+      end
+  | _, _ => sv_triv
+  end.
+(* oversize: a message that does not fit the frame must be refused, never encoded with a truncated count *)
+Definition c04_oversize (s : ost) (o : op) (x : obs) : sv :=
+  match o with
+  | OEncode h id a ls buf =>
+      match spec_message h id a ls (snd (os_eids s)) with
+      | Some (_, body) =>
+          if fits_frame body then sv_triv
+          else sv_of (match x with XEnc None out => list_eqb out buf | _ => false end) 200
+      | None => sv_triv
+      end
+  | _ => sv_triv
+  end.
+Definition sv_and (a b : sv) : sv :=
+  {| s_o := s_o a && s_o b; s_kf := if s_kf a =? 0 then s_kf b else s_kf a;
+     s_nontrivial := s_nontrivial a || s_nontrivial b; s_tag := if s_nontrivial a then s_tag a else s_tag b |}.
+
+(* ================================================================ C05 *)
+(* bytes 4-8: version, destination EID, source EID = own address, flags C8, IC 0 + message type *)
+Definition c05_step (g : config) (s : ost) (o : op) (x : obs) : sv :=
+  match o, x with
+  | OEncode h id a ls buf, XEnc (Some n) out =>
+      match spec_message h id a ls (snd (os_eids s)) with
+      | Some (mt, _) =>
+          sv_of (list_eqb (sub out 4 5) [1; enc_dest h id a; g_addr g; 200; mt] && (mt <? 128)) id
+      | None => sv_triv            (* documented-invalid arguments: C16's business *)
+      end
+  | _, _ => sv_triv
+  end.
+
+(* ================================================================ C06 *)
+(* request bodies: 0x80, DSP0236 command code, parameters in specification order, nothing else *)
+Definition c06_step (s : ost) (o : op) (x : obs) : sv :=
+  match o, x with
+  | OEncode true id a ls buf, XEnc (Some n) out =>
+      if (1 <=? id) && (id <=? 17) then
+        match spec_request id a ls with
+        | Some (code, params) =>
+            let others := (10 <=? n)%nat && (n <=? length out)%nat && (nth 9 out 0 =? 128)
+                          && list_eqb (sub out 11 (n - 12)) params && (12 <=? n)%nat in
+            if others then sv_kf (nth 10 out 0 =? code) (if id =? 15 then 601 else 0) id
+            else sv_of false id
+        | None => sv_of false id       (* documented-invalid arguments were encoded *)
+        end
+      else sv_triv
+  | _, _ => sv_triv
+  end.
+
+(* ================================================================ C07 *)
+(* response bodies: 0x00, command code, completion code; for Success the DSP0236 fields *)
+Definition c07_step (s : ost) (o : op) (x : obs) : sv :=
+  match o, x with
+  | OEncode false id a ls buf, XEnc (Some n) out =>
+      if (1 <=? id) && (id <=? 6) then
+        match spec_response id a ls (snd (os_eids s)) with
+        | Some (code, cc, fields) =>
+            sv_of ((10 <=? n)%nat && (n <=? length out)%nat &&
+                   list_eqb (sub out 9 3) [0; code; cc] &&
+                   (negb (cc =? 0) || list_eqb (sub out 12 (n - 13)) fields)) id
+        | None => sv_of false id
+        end
+      else sv_triv
+  | _, _ => sv_triv
+  end.
+
+(* ================================================================ C08 *)
+(* vendor-defined and SPDM framing: type byte, vendor ID most significant byte first, message verbatim;
+   any other format refused *)
+Definition c08_step (s : ost) (o : op) (x : obs) : sv :=
+  match o with
+  | OEncode h id a ls buf =>
+      if (h && (id =? 20)) || (id =? 31) || (id =? 32) || (id =? 33) then
+        match spec_message h id a ls 0, x with
+        | Some (mt, body), XEnc (Some n) out =>
+            sv_of ((10 <=? n)%nat && (n <=? length out)%nat && list_eqb (sub out 8 (n - 9)) (mt :: body)) id
+        | Some (mt, body), XEnc None out => if fits_frame body then sv_of false id else sv_triv
+        | Some (mt, body), _ => sv_triv
+        | None, XEnc None out => sv_of (list_eqb out buf) id        (* other formats: refused *)
+        | None, _ => sv_of false id
+        end
+      else sv_triv
+  | _ => sv_triv
+  end.
+
+(* ================================================================ C16 *)
+(* exact bytes written, later bytes untouched, independence of prior contents and spare capacity, no panic;
+   documented refusals leave the buffer untouched; everything else that fits succeeds *)
+Definition same_call (o1 o2 : op) : bool :=
+  match o1, o2 with
+  | OEncode h1 i1 a1 l1 _, OEncode h2 i2 a2 l2 _ =>
+      Bool.eqb h1 h2 && (i1 =? i2) && list_eqb a1 a2 && list_eqb (concat l1) (concat l2)
+      && list_eqb (map (fun l => N.of_nat (length l)) l1) (map (fun l => N.of_nat (length l)) l2)
+  | _, _ => false
+  end.
+Definition c16_step (s : ost) (o : op) (x : obs) : sv :=
+  match o with
+  | OEncode h id a ls buf =>
+      if known_encoder h id then
+        match spec_message h id a ls (snd (os_eids s)) with
+        | None =>   (* documented-invalid: error, buffer untouched *)
+            sv_of (match x with XEnc None out => list_eqb out buf | _ => false end) id
+        | Some (_, body) =>
+            if fits_frame body then
+              let n' := (length body + 10)%nat in
+              if (n' <=? length buf)%nat then
+                match x with
+                | XEnc (Some n) out =>
+                    sv_of ((n <=? length out)%nat && (length out =? length buf)%nat &&
+                           list_eqb (skipn n out) (skipn n buf) &&
+                           match os_last_enc s with
+                           | Some (o', m, out') =>
+                               if same_call o o' then (m =? n)%nat && list_eqb (firstn n out) (firstn n out') else true
+                           | None => true
+                           end) id
+                | _ => sv_of false id     (* refused or panicked although it fits *)
+                end
+              else sv_triv                (* buffer shorter than the packet: outside the claim *)
+            else sv_of (match x with XEnc None out => list_eqb out buf | _ => false end) id
+        end
+      else sv_triv
+  | _ => sv_triv
+  end.
+
+(* ================================================================ C17 *)
+(* the length probe: >= 3 bytes: byte[2]+4 iff byte[1] = 0x0F, else error Invalid; < 3 bytes: rejected *)
+Definition c17_step (o : op) (x : obs) : sv :=
+  match o with
+  | OGetLength p =>
+      if (3 <=? length p)%nat then
+        sv_of (match x with
+               | XLen (inl n) => (nth 1 p 0 =? 15) && (n =? N.to_nat (nth 2 p 0%N) + 4)%nat
+               | XLen (inr (mt, _)) => negb (nth 1 p 0 =? 15) && msg_type_eqb mt MInvalid
+               | _ => false
+               end) (if nth 1 p 0 =? 15 then 1 else 2)
+      else sv_of (match x with XLen (inr _) => true | _ => false end) 3
+  | _ => sv_triv
+  end.
+
+(* ================================================================ C19 *)
+Definition defined_cmd (b : N) : bool := b <=? 20.
+Definition defined_mt (b : N) : bool := (b =? 0) || (b =? 5) || (b =? 6) || (b =? 126) || (b =? 127).
+Definition c19_step (o : op) (x : obs) : sv :=
+  match o with
+  | OConv 0 b => sv_of (match x with XVal v => v =? (if defined_mt b then b else 255) | _ => false end) 0
+  | OConv 1 b => sv_of (match x with XVal v => v =? (if defined_cmd b then b else 255) | _ => false end) 1
+  | OConv 2 b => if b <=? 5 then sv_of (match x with XVal v => v =? b | _ => false end) 2 else sv_triv
+  | _ => sv_triv
+  end.
+
+(* ================================================================ decoding: well-formed packets (C09) *)
+Definition supported_type (b : N) : bool := (b =? 0) || (b =? 5) || (b =? 6) || (b =? 126) || (b =? 127).
+(* transport header version 1 with zero reserved bits; IC clear and a supported message type *)
+Definition header_ok (p : list N) : bool := (nth 4 p 0 =? 1) && supported_type (nth 8 p 0).
+Definition pec_good (p : list N) : bool := last_byte p =? pec (all_but_last p).
+
+(* the fixed data lengths the property names (0 = no fixed length) *)
+Definition req_fixed_len (cmd : N) : nat :=
+  match cmd with 1 => 2%nat | 4 => 1%nat | 6 => 1%nat | 7 => 1%nat | 8 => 3%nat | _ => 0%nat end.
+Definition resp_fixed_len (cmd : N) : nat :=
+  match cmd with 1 => 3%nat | 3 => 16%nat | 4 => 5%nat | _ => 0%nat end.
+Definition len_ok (fixed actual : nat) : bool := (fixed =? 0)%nat || (actual =? fixed)%nat.
+
+Definition is_request (p : list N) : bool := 128 <=? nth 9 p 0.     (* Rq bit *)
+Definition ctl_cmd (p : list N) : N := nth 10 p 0.
+Definition ctl_cc (p : list N) : N := nth 11 p 0.
+(* header length in front of the payload: 9 for vendor/SPDM, 11 for control requests, 12 for responses *)
+Definition hdr_len (p : list N) : nat :=
+  if nth 8 p 0 =? 0 then (if is_request p then 11 else 12)%nat else 9%nat.
+Definition payload_len (p : list N) : nat := (length p - 1 - hdr_len p)%nat.
+
+Definition wf_packet (p : list N) : bool :=
+  header_ok p && pec_good p &&
+  (if nth 8 p 0 =? 0 then
+     if is_request p then len_ok (req_fixed_len (ctl_cmd p)) (payload_len p)
+     else (ctl_cc p =? 0) && len_ok (resp_fixed_len (ctl_cmd p)) (payload_len p)
+   else true).
+
+(* the classes of input on which the decoder is known to panic (C10 findings D1-D9); 0 = none.
+   Each is a decidable predicate on the bytes alone. *)
+Definition decode_panic_class (p : list N) : N :=
+  let len := length p in
+  if (len <? 8)%nat || ((len =? 8)%nat && (nth 4 p 0 =? 1)) then 1001          (* D1 too short for the headers *)
+  else if (len =? 8)%nat then 0
+  else if negb (header_ok p) then 0
+  else if negb (nth 8 p 0 =? 0) then
+    if pec_good p && (len =? 9)%nat then 1002 else 0                             (* D2 nothing but headers + matching PEC *)
+  else if (len <? 11)%nat then 1003                                              (* D3 control packet of 9-10 bytes *)
+  else if is_request p then
+    if 9 <=? ctl_cmd p then 1004                                                 (* D4 request, command >= 9 *)
+    else if (len =? 11)%nat then 1005 else 0                                     (* D5 11-byte request *)
+  else
+    if (len =? 11)%nat then 1006                                                 (* D6 11-byte response *)
+    else if negb (ctl_cc p =? 0) then
+      if 5 <? ctl_cc p then 1007 else 0                                          (* D7 completion code > 5 *)
+    else if (ctl_cmd p =? 7) || (10 <=? ctl_cmd p) then 1008                     (* D8 Success response to cmd 7 / >= 10 *)
+    else if (len =? 12)%nat then 1009 else 0.                                    (* D9 12-byte Success response *)
+
+(* responses whose expected length the library gets wrong w.r.t. DSP0236 (outside C09's claim) *)
+Definition c09_excluded_response (p : list N) : bool :=
+  (nth 8 p 0 =? 0) && negb (is_request p) &&
+  ((ctl_cmd p =? 2) || (ctl_cmd p =? 8) || (ctl_cmd p =? 9)).
+
+(* a rejection is truthful when the named condition really holds of the input *)
+Definition truthful (p : list N) (e : derror) : bool :=
+  match e with
+  | (mt, DUnknown) => msg_type_eqb mt MInvalid && negb (header_ok p)
+  | (mt, DControlMessage CEInvalidPEC) =>
+      header_ok p && negb (pec_good p) && (msg_type_to_u8 mt =? nth 8 p 0)
+  | (mt, DControlMessage CEInvalidRequestDataLength) =>
+      header_ok p && (nth 8 p 0 =? 0) && msg_type_eqb mt MCtpControl &&
+      negb (len_ok (if is_request p then req_fixed_len (ctl_cmd p) else resp_fixed_len (ctl_cmd p)) (payload_len p))
+  | (mt, DControlMessage (CEUnsuccessfulCompletionCode c)) =>
+      header_ok p && (nth 8 p 0 =? 0) && msg_type_eqb mt MCtpControl && negb (is_request p)
+      && (ctl_cc p =? c) && negb (c =? 0)
+  | (_, DControlMessage _) => false
+  end.
+
+Definition c09_step (o : op) (x : obs) : sv :=
+  match o with
+  | ODecode p =>
+      if (length p <? 9)%nat || c09_excluded_response p then sv_triv
+      else
+        let k := decode_panic_class p in
+        if negb (k =? 0) then sv_triv       (* C10's classes: outside C09's claim *)
+        else
+          sv_of (match x with
+                 | XDecode (inl (mt, (off, len))) =>
+                     wf_packet p && (msg_type_to_u8 mt =? nth 8 p 0) && (off =? hdr_len p)%nat && (len =? payload_len p)%nat
+                 | XDecode (inr e) => negb (wf_packet p) && truthful p e
+                 | _ => false            (* panic, or a context-dependent answer *)
+                 end)
+                (if wf_packet p then 10 + nth 8 p 0 else if header_ok p then (if pec_good p then 3 else 2) else 1)
+  | _ => sv_triv
+  end.
+
+(* ================================================================ C10 *)
+(* classes of accepted requests on which the request processor is known to panic (findings P2-P5) *)
+Definition process_panic_class (ovf : bool) (g : config) (p : list N) : N :=
+  if wf_packet p && (nth 8 p 0 =? 0) && is_request p then
+    let cmd := ctl_cmd p in
+    if cmd =? 0 then 1012                                               (* P2 Reserved command *)
+    else if cmd =? 1 then
+      (if (nth 11 p 0 =? 2) || (4 <=? nth 11 p 0) then 1013 else 0)     (* P3 Set EID operation 2 or >= 4 *)
+    else if cmd =? 6 then
+      (if (N.of_nat (length (g_vendor_ids g)) <=? nth 11 p 0) then 1014 else 0)   (* P4 selector >= n (incl. 0xFF) *)
+    else if (cmd =? 7) || (cmd =? 8) then 1015                          (* P5 accepted Resolve EID / Allocate EIDs *)
+    else 0
+  else 0.
+
+(* a validly configured context: formats PCI/IANA, at most 30 message types, 1..16 vendor sets *)
+Definition valid_cfg (g : config) : bool :=
+  (length (g_msg_types g) <=? 30)%nat && (1 <=? length (g_vendor_ids g))%nat && (length (g_vendor_ids g) <=? 16)%nat
+  && forallb (fun v => v_format v <=? 1) (g_vendor_ids g).
+
+Definition is_panic_obs (x : obs) : bool := match x with XPanic _ => true | _ => false end.
+
+Definition c10_step (ovf : bool) (g : config) (o : op) (x : obs) : sv :=
+  match o with
+  | ODecode p => sv_kf (negb (is_panic_obs x)) (decode_panic_class p) (decode_panic_class p)
+  | OGetLength p => sv_of (negb (is_panic_obs x)) 1
+  | OProcess p buf =>
+      if valid_cfg g && (64 <=? length buf)%nat then
+        let k := decode_panic_class p in
+        let k := if k =? 0 then process_panic_class ovf g p else k in
+        sv_kf (negb (is_panic_obs x)) k k
+      else sv_triv
+  | _ => sv_triv
+  end.
+
+(* ================================================================ C01 *)
+(* decode(encode(..)) = (type, payload) ; unsuccessful completion codes come back as that error *)
+Definition c01_step (s : ost) (o : op) (x : obs) : sv :=
+  match o, os_last_enc s with
+  | ODecode p, Some (OEncode h id a ls _, n, out) =>
+      if list_eqb p (firstn n out) && negb (id =? 30) && negb ((id =? 32) && negb ((arg a 2 =? 5) || (arg a 2 =? 6))) then
+        match spec_message h id a ls (snd (os_eids s)) with
+        | Some (mt, body) =>
+            let is_ctl := mt =? 0 in
+            let is_resp := is_ctl && negb h in
+            let cc := arg a 0 in
+            let kf := if is_ctl && h && (9 <=? nth 1 body 0) then 102       (* D-REQ-TABLE: own requests cmd >= 9 *)
+                      else if is_resp && (cc =? 0) && (id =? 2) then 101   (* D-GEID-LEN: own Get EID response *)
+                      else 0 in
+            if is_resp && negb (cc =? 0) then
+              sv_kf (match x with
+                     | XDecode (inr (m, DControlMessage (CEUnsuccessfulCompletionCode c))) => msg_type_eqb m MCtpControl && (c =? cc)
+                     | _ => false end) kf id
+            else
+              let hl := if is_ctl then (if h then 11 else 12)%nat else 9%nat in
+              sv_kf (match x with
+                     | XDecode (inl (m, (off, len))) =>
+                         (msg_type_to_u8 m =? mt) && (off =? hl)%nat && (len =? n - 1 - hl)%nat
+                         && list_eqb (sub p off len) (skipn (hl - 9) body)
+                     | _ => false end) kf id
+        | None => sv_triv
+        end
+      else sv_triv
+  | _, _ => sv_triv
+  end.
+
+(* ================================================================ C02 *)
+(* success only with a correct PEC; a bad PEC produces no response bytes and changes no EID *)
+Definition c02_step (s : ost) (o : op) (x3 : obs3) : sv :=
+  let x := fst x3 in
+  match o with
+  | ODecode p =>
+      if (1 <=? length p)%nat then
+        if pec_good p then sv_triv
+        else sv_of (match x with XDecode (inl _) => false | _ => true end) 1
+      else sv_triv
+  | OProcess p buf =>
+      if (1 <=? length p)%nat && negb (pec_good p) then
+        sv_of (match x with
+               | XProcess (inl _) _ => false
+               | XProcess (inr _) b => list_eqb b buf
+               | XPanic b => list_eqb b buf
+               | _ => false
+               end && (fst (snd x3) =? fst (os_eids s)) && (snd (snd x3) =? snd (os_eids s))) 2
+      else sv_triv
+  | _ => sv_triv
+  end.
+
+(* ================================================================ C11 *)
+(* processing agrees with decoding; a response only for accepted control requests; otherwise the buffer is
+   untouched, and bytes beyond the reported length always are *)
+Definition c11_step (s : ost) (o : op) (x : obs) : sv :=
+  match o with
+  | OProcess p buf =>
+      let agrees :=
+          match os_last_dec s with
+          | Some (p', d) =>
+              if list_eqb p p' then
+                match d, x with
+                | XDecode (inl d1), XProcess (inl (d2, _)) _ => decoded_eqb d1 d2
+                | XDecode (inr e1), XProcess (inr e2) _ => derror_eqb e1 e2
+                | XPanic _, _ => true         (* decode panicked: a C10 class, nothing to agree with *)
+                | _, XPanic _ => true         (* process panicked after decoding: C10 *)
+                | _, _ => false
+                end
+              else true
+          | None => true
+          end in
+      let accepted_request := wf_packet p && (nth 8 p 0 =? 0) && is_request p in
+      let writes :=
+          match x with
+          | XProcess (inl (_, Some n)) b =>
+              accepted_request && (length b =? length buf)%nat && list_eqb (skipn n b) (skipn n buf)
+          | XProcess (inl (_, None)) b => list_eqb b buf
+          | XProcess (inr _) b => list_eqb b buf
+          | XPanic _ => true
+          | _ => false
+          end in
+      sv_of (agrees && writes) (nth 8 p 0)
+  | _ => sv_triv
+  end.
+
+(* ================================================================ responses to accepted requests (C12-C15) *)
+(* the commands the responder answers *)
+Definition answerable (cmd : N) : bool := (1 <=? cmd) && (cmd <=? 6).
+Definition accepted_request (p : list N) : bool := wf_packet p && (nth 8 p 0 =? 0) && is_request p.
+Definition instance_of (p : list N) : N := nth 9 p 0 mod 32.
+
+Definition enc_vendor_set (v : vendor_id) : list N :=
+  if v_format v =? 0
+  then [0; (v_data v / 256) mod 256; v_data v mod 256; (v_numeric v / 256) mod 256; v_numeric v mod 256]
+  else [1; (v_data v / 16777216) mod 256; (v_data v / 65536) mod 256; (v_data v / 256) mod 256; v_data v mod 256;
+        (v_numeric v / 256) mod 256; v_numeric v mod 256].
+
+(* C12: the response is a well-formed packet travelling back to the requester, same command, same instance *)
+Definition c12_step (g : config) (o : op) (x : obs) : sv :=
+  match o with
+  | OProcess p buf =>
+      if accepted_request p && answerable (ctl_cmd p) && (nth 6 p 0 =? nth 3 p 0 / 2)
+         && (64 <=? length buf)%nat && (process_panic_class true g p =? 0) && valid_cfg g
+         && (if ctl_cmd p =? 1 then (1 <=? nth 12 p 0) && (nth 12 p 0 <=? 254) else true) then
+        match x with
+        | XProcess (inl (_, Some n)) b =>
+            let r := firstn n b in
+            let requester := nth 6 p 0 in
+            let others :=
+                (13 <=? n)%nat && (n <=? length b)%nat &&
+                list_eqb (firstn 9 r) [(requester mod 128) * 2; 15; N.of_nat (n - 4); (g_addr g mod 128) * 2 + 1;
+                                       1; requester; g_addr g; 200; 0]
+                && pec_ok n b
+                && (nth 9 r 0 <? 32)                     (* Rq 0, D 0, rsvd 0 *)
+                && (nth 10 r 0 =? ctl_cmd p)
+                && (nth 11 r 0 <=? 5) in
+            if others then sv_kf (nth 9 r 0 =? instance_of p) (if instance_of p =? 0 then 0 else 1201) (ctl_cmd p)
+            else sv_of false (ctl_cmd p)
+        | _ => sv_of false (ctl_cmd p)
+        end
+      else sv_triv
+  | _ => sv_triv
+  end.
+
+(* C13: EID = last assigned; the abstract machine's state is os_spec_eid *)
+Definition assigning (p : list N) : bool :=
+  accepted_request p && (ctl_cmd p =? 1) && ((nth 11 p 0 =? 0) || (nth 11 p 0 =? 1)).
+Definition c13_step (g : config) (s : ost) (o : op) (x3 : obs3) : sv :=
+  let x := fst x3 in
+  let '(er, es) := snd x3 in
+  let '(er0, es0) := os_eids s in
+  match o with
+  | OSetEid true e => sv_of ((er =? e) && (es =? es0)) 1
+  | OSetEid false e => sv_of ((es =? e) && (er =? er0)) 2
+  | OProcess p buf =>
+      if assigning p && (64 <=? length buf)%nat then
+        let e := nth 12 p 0 in
+        sv_of ((er =? e) && (es =? e) &&
+               match x with
+               | XProcess (inl (_, Some n)) b =>
+                   (n =? 16)%nat && list_eqb (sub b 10 4) [1; 0; 0; e]     (* Set EID, Success, accepted / no pool, new EID *)
+               | _ => false end) 3
+      else
+        let unchanged := (er =? er0) && (es =? es0) in
+        if accepted_request p && (64 <=? length buf)%nat then
+          if (ctl_cmd p =? 1) && (nth 11 p 0 =? 3) then
+            (* Set Discovered Flag: invalid-data completion code, EID as it was *)
+            sv_of (unchanged && match x with
+                                | XProcess (inl (_, Some n)) b => (n =? 16)%nat && list_eqb (sub b 10 2) [1; 2] && (nth 13 b 0 =? es0)
+                                | _ => false end) 4
+          else if ctl_cmd p =? 2 then
+            (* Get Endpoint ID reports the current EID *)
+            sv_of (unchanged && match x with
+                                | XProcess (inl (_, Some n)) b => (n =? 16)%nat && list_eqb (sub b 10 3) [2; 0; es0]
+                                | _ => false end) 5
+          else sv_of unchanged 6
+        else sv_of unchanged 7
+  | _ => sv_of ((er =? er0) && (es =? es0)) 8
+  end.
+
+(* C14: vendor ID set i, next selector i+1 or 0xFF *)
+Definition c14_step (g : config) (o : op) (x : obs) : sv :=
+  match o with
+  | OProcess p buf =>
+      if accepted_request p && (ctl_cmd p =? 6) && valid_cfg g && (64 <=? length buf)%nat then
+        let i := nth 11 p 0 in
+        let n := N.of_nat (length (g_vendor_ids g)) in
+        if i <? n then
+          match nth_error (g_vendor_ids g) (N.to_nat i) with
+          | Some v =>
+              let field := enc_vendor_set v in
+              let next := if i + 1 =? n then 255 else i + 1 in
+              sv_of (match x with
+                     | XProcess (inl (_, Some m)) b =>
+                         (m =? 14 + length field)%nat && list_eqb (sub b 10 (3 + length field)) ([6; 0; next] ++ field)
+                     | _ => false end) i
+          | None => sv_triv
+          end
+        else sv_triv
+      else sv_triv
+  | _ => sv_triv
+  end.
+
+(* C15: message types, UUID, version *)
+Definition c15_step (g : config) (s : ost) (o : op) (x : obs) : sv :=
+  match o with
+  | OProcess p buf =>
+      if accepted_request p && valid_cfg g && (64 <=? length buf)%nat then
+        let cmd := ctl_cmd p in
+        let want :=
+            if cmd =? 5 then Some ([5; 0; N.of_nat (length (g_msg_types g))] ++ g_msg_types g)
+            else if cmd =? 3 then Some ([3; 0] ++ os_uuid s)
+            else if cmd =? 4 then Some [4; 0; 1; 241; 243; 241; 0]
+            else None in
+        match want with
+        | Some body =>
+            sv_of (match x with
+                   | XProcess (inl (_, Some m)) b => (m =? 11 + length body)%nat && list_eqb (sub b 10 (length body)) body
+                   | _ => false end) cmd
+        | None => sv_triv
+        end
+      else sv_triv
+  | _ => sv_triv
+  end.
+
+(* ================================================================ C18 *)
+(* documented wire layout of every field: (byte index, shift within the byte, width); the two wide fields
+   are big-endian over the whole buffer *)
+Definition field_layout (fld : N) : option (nat * N * N) :=
+  match fld with
+  | 0 => Some (0%nat, 4, 4) | 1 => Some (0%nat, 0, 4) | 2 => Some (1%nat, 0, 8) | 3 => Some (2%nat, 0, 8)
+  | 4 => Some (3%nat, 7, 1) | 5 => Some (3%nat, 6, 1) | 6 => Some (3%nat, 4, 2) | 7 => Some (3%nat, 3, 1)
+  | 8 => Some (3%nat, 0, 3)
+  | 9 => Some (0%nat, 7, 1) | 10 => Some (0%nat, 0, 7)
+  | 11 => Some (0%nat, 7, 1) | 12 => Some (0%nat, 6, 1) | 13 => Some (0%nat, 5, 1) | 14 => Some (0%nat, 0, 5)
+  | 15 => Some (1%nat, 0, 8)
+  | 16 => Some (0%nat, 0, 1) | 17 => Some (0%nat, 1, 7) | 18 => Some (1%nat, 0, 8) | 19 => Some (2%nat, 0, 8)
+  | 20 => Some (3%nat, 0, 1) | 21 => Some (3%nat, 1, 7)
+  | 22 => Some (0%nat, 0, 4) | 23 => Some (0%nat, 4, 4) | 24 => Some (1%nat, 0, 8) | 25 => Some (2%nat, 0, 8)
+  | 26 => Some (3%nat, 0, 8)
+  | _ => None
+  end.
+Definition be_value (l : list N) : N := fold_left (fun a b => a * 256 + b) l 0.
+Fixpoint be_bytes (k : nat) (v : N) : list N :=
+  match k with O => [] | S k' => be_bytes k' (v / 256) ++ [v mod 256] end.
+
+Definition spec_get (fld : N) (raw : list N) : N :=
+  match field_layout fld with
+  | Some (k, sh, w) => (nth k raw 0 / 2 ^ sh) mod 2 ^ w
+  | None => be_value raw
+  end.
+Definition spec_set (fld : N) (raw : list N) (v : N) : list N :=
+  match field_layout fld with
+  | Some (k, sh, w) =>
+      upd k (fun b => b - ((b / 2 ^ sh) mod 2 ^ w) * 2 ^ sh + (v mod 2 ^ w) * 2 ^ sh) raw
+  | None => be_bytes (length raw) v
+  end.
+
+Definition c18_step (o : op) (x : obs) : sv :=
+  match o with
+  | OHdr 0 fld raw v =>
+      if (fld <=? 28) && (length raw =? struct_len fld)%nat
+      then sv_of (match x with XVal r => r =? spec_get fld raw | _ => false end) fld else sv_triv
+  | OHdr 1 fld raw v =>
+      if (fld <=? 28) && (length raw =? struct_len fld)%nat
+      then sv_of (match x with XBytes r => list_eqb r (spec_set fld raw v) | _ => false end) (100 + fld) else sv_triv
+  | OHdr 2 _ raw v =>
+      (* transport header from bytes: succeeds exactly when reserved bits are zero and the version matches *)
+      if (length raw =? 4)%nat then
+        sv_of (match x with XVal r => r =? N.b2n ((nth 0 raw 0 / 16 =? 0) && (nth 0 raw 0 mod 16 =? v mod 256)) | _ => false end) 200
+      else sv_triv
+  | OHdr 3 _ raw _ =>
+      (* message body header from bytes: integrity bit clear and a supported type *)
+      if (length raw =? 1)%nat then
+        sv_of (match x with XVal r => r =? N.b2n ((nth 0 raw 0 <? 128) && supported_type (nth 0 raw 0)) | _ => false end) 201
+      else sv_triv
+  | _ => sv_triv
+  end.
+
+(* ================================================================ encoders refine the specification (C16 core) *)
+(* the argument shapes the API documents: u8 / u16 / u32 values, enum discriminants, 16-byte UUIDs,
+   4-byte routing entries, vendor ID fields of at most 7 bytes *)
+Definition u8s (l : list N) : bool := forallb (fun x => x <? 256) l.
+Definition ok_gen (a : list N) : bool := (arg a 0 <? 256) && (arg a 2 <? 256).
+Definition ok_req (a : list N) : bool := (arg a 0 <? 256) && (arg a 1 <? 256) && (arg a 2 <? 256) && (arg a 3 <? 256).
+Definition ok_req20 (a : list N) : bool := (arg a 0 <? 256) && (arg a 1 <? 256) && (arg a 2 <? 4294967296).
+Definition ok_resp (a : list N) : bool := (arg a 0 <=? 5) && (arg a 1 <? 256).
+Definition args_okb (request_half : bool) (id : N) (a : list N) (ls : list (list N)) : bool :=
+  forallb u8s ls &&
+  (if 30 <=? id then ok_gen a
+   else if request_half then
+     (if id =? 20 then ok_req20 a
+      else ok_req a &&
+           (if id =? 9 then forallb (fun e => (length e =? 4)%nat) ls
+            else if id =? 16 then (length (larg ls 0) =? 16)%nat else true))
+   else
+     ok_resp a &&
+     match id with
+     | 1 => (arg a 2 <=? 1) && (arg a 3 <=? 2)
+     | 2 => (arg a 2 <=? 1) && (arg a 3 <=? 3)
+     | 3 => (length (larg ls 0) =? 16)%nat
+     | 6 => (arg a 2 <? 256) && (length (larg ls 0) <=? 7)%nat
+     | _ => true
+     end).
+
+(* what an encoder call must do to a buffer, given the message it stands for *)
+Definition enc_spec (addr dest : N) (m : option (N * list N)) (buf : list N) (r : list N * res (option nat)) : Prop :=
+  match m with
+  | None => r = (buf, Val None)
+  | Some (mt, body) =>
+      if (259 <? 10 + length body)%nat then r = (buf, Val None)
+      else (10 + length body <= length buf)%nat ->
+           r = (spec_packet addr dest mt body ++ skipn (10 + length body) buf, Val (Some (10 + length body)%nat))
   end.
